@@ -87,6 +87,9 @@ func multiBfsCheck(prop string, parts []part, extraAssume []string) {
 			var mkAny func() Driver
 			var o Options
 			for _, p := range parts {
+				if tier != "thorough" && p.QD == 0 {
+					continue
+				}
 				o = Options{Property: prop, Tier: tier, Seed: seed, Workers: Workers(), Depth: p.QD, ConfCap: p.QC, Deadline: 8 * time.Minute}
 				if tier == "thorough" {
 					o.Depth, o.ConfCap, o.Deadline = p.TD, p.TC, 60*time.Minute
@@ -235,11 +238,29 @@ func init() {
 	bfsCheck("C11", "nns-auth", func() Driver { return NewNNSDriver("C11") }, 3, 5, 120, 1000, nil)
 	multiBfsCheck("C12", []part{
 		{"nns-records", func() Driver { return NewNNSDriver("C12r") }, 3, 5, 80, 600},
+		{"nns-midlevel-expiry", func() Driver { return NewNNSDriver("C12m") }, 4, 6, 40, 300},
 		{"nns-cname", func() Driver { return NewNNSDriver("C12c") }, 5, 16, 80, 600},
 	}, nil)
 	comboCheck("C14", "container-roster", func() Driver { return NewRosterDriver() }, 4, 6, 40, 200,
 		[]func() GridDriver{func() GridDriver { return NewSigGrid() }}, 40, 200, nil)
 	gridCheck("C18", []func() GridDriver{func() GridDriver { return NewValGrid() }}, 100, 500, nil)
+	{
+		var parts []part
+		for n := 1; n <= 7; n++ {
+			n := n
+			th := n*2/3 + 1
+			full := n <= 4
+			qd, td := th+2, th+3
+			if n > 4 {
+				qd = 0 // thorough only
+				td = th + 2
+			}
+			parts = append(parts, part{fmt.Sprintf("neofs-votes-n%d", n), func() Driver { return NewVoteDriver(n, n >= 3, full) }, qd, td, 30, 150})
+		}
+		// without the symmetry reduction (every voter order), thorough tier only
+		parts = append(parts, part{"neofs-votes-n3-all-orders", func() Driver { return NewVoteDriver(3, false, true) }, 0, 5, 30, 150})
+		multiBfsCheck("C17", parts, nil)
+	}
 	bfsCheckT("C08", "netmap-history", func(tier string) func() Driver {
 		if tier == "thorough" {
 			return func() Driver { return NewSnapDriver([]int{0, 1, 2, 3, 4, 5, 6, 7, 8, 9, 10, 11, 12}, 30, 2) }
